@@ -395,7 +395,7 @@ class Signal(object):
             The number of points over which values are averaged
         """
 
-        mot = self.values
+        mot = np.array(self.values)  # average the original samples, not the ones already replaced
 
         for i in range(len(mot)):
             if i < width / 2:
